@@ -32,7 +32,7 @@ RULE = (
     "code, ISO start <= end and a config from which CONFIG_TYPE(**config) reproduces the same JSON; log.json.zst decompresses completely "
     "and PenlogReader returns every marker record logged by the command in order; the lock file can be flock()ed without blocking "
     "afterwards; the run_meta row has end_time and the same exit_code; hooks saw GALLIA_HOOK / GALLIA_ARTIFACTS_DIR / GALLIA_INVOCATION "
-    "and, for post, GALLIA_EXIT_CODE and GALLIA_META consistent with META.json; a failing or missing hook changes none of the above. "
+    "and, for post, GALLIA_EXIT_CODE and GALLIA_META consistent with META.json; a failing or missing hook changes none of the above (nor does a hook that takes 11 s: thorough tier); a command run twice back to back leaves two intact run directories. "
     "Non-trivial: anything but (return x all resources off). Distinct by combination."
 )
 ASSUMPTIONS = [
